@@ -37,6 +37,10 @@ def histories(chk, emphasis=None):
                 for act in ("X", "C", "K", "D1"):
                     e2 = ev[:pos] + [act] + ev[pos:] + (["S1:ok", "B"] if flav == "tls" else ["B"])
                     H.append(dict(name="teardown-at-every-point", flav=flav, opts="app=sync", events=e2, reqs=None))
+    # in about a third of the histories the bytes of a later read have arrived by the time an earlier one completes
+    for h in H:
+        if rng.random() < 0.35:
+            h["events"] = S.early_bytes(rng, h["events"])
     return H
 
 
@@ -69,7 +73,7 @@ def mon_C03(h, ents, pend, raw):
         for a, b in zip(writes, wires):
             if b != "?" and a != b:
                 out.append(("wire-differs-from-issued-bytes", "c%d: bytes on the wire differ from the bytes issued" % cid))
-    if h["reqs"] is not None and h["name"] in ("sequential", "head/get pair", "close decision", "idle ticks", "head then other"):
+    if h["reqs"] is not None and (h["name"] in ("sequential", "head/get pair", "close decision", "idle ticks", "head then other") or h["name"].startswith("head with body")):
         es = pc.get(1, [])
         exp = b""
         for k, rq in enumerate(h["reqs"]):
@@ -80,6 +84,8 @@ def mon_C03(h, ents, pend, raw):
             exp += r
         if exp is not None:
             got = S.wire_of(es)
+            if any(rq.expect for rq in h["reqs"]):
+                got = re.sub(rb"HTTP/1\.1 100 Continue\r\n(?:[^\r\n]+\r\n)*\r\n", b"", got)     # interim responses are not part of the answer
             if got != exp:
                 out.append(("responses-not-the-ordered-concatenation", "c1: wire is not the ordered concatenation of the responses issued: got %r... expected %r..." % (got[:120], exp[:120])))
         sends = [e for e in es if e.startswith("send=")]
@@ -113,7 +119,7 @@ def mon_C04(h, ents, pend, raw):
         if any(e == "STALE-BUFFER" or e == "TRUNCATED-WRITE" for e in es):
             continue
         stream = S.wire_of(es)
-        mine = b"".join(unhex(ev.split(":", 1)[1]) for ev in h["events"] if re.match(r"R%d:" % cid, ev))
+        mine = b"".join(unhex(ev.split(":", 1)[1].rstrip("+")) for ev in h["events"] if re.match(r"R%d:" % cid, ev))
         if cid == 1 and head_indices(h) is not None:
             hi = head_indices(h)
         elif b"HEAD" in mine:
@@ -302,7 +308,7 @@ def mon_C13(h, ents, pend, raw):
 
 def mon_C14(h, ents, pend, raw):
     out = mon_C03(h, ents, pend, raw)
-    if ents is None or h["name"] != "head/get pair":
+    if ents is None or h["reqs"] is None or not (h["name"] == "head/get pair" or h["name"].startswith("head with body")):
         return out
     xl = "xlate=1" in h["opts"]
     reqs_seen = [e for e in S.per_conn(ents).get(1, []) if e.startswith("req=")]
